@@ -426,3 +426,16 @@ RULES.append(('02.t', 'identity comparisons: every reviewed (function, identity 
 RULES.append(('02.M', 'collection mutations: every reviewed (function, stored collection, mutator class: add / remove / filter / empty / swap / order) triple is still present - an entry that is no longer removed, inserted or drained on one path (rules/mutations.py)', lambda F: mutations.for_property(F, 'C02', '02.M')))
 RULES.append(('02.G', 'guard census: no reviewed call of a workspace function and no reviewed mutation of a stored collection gained a controlling branch condition (an added `&& cond`, early return / continue, more specific match arm in front of an act); counts per call site, name free (rules/guards.py)', lambda F: guards.for_property(F, 'C02', '02.G')))
 RULES.append(('02.W', 'field assignments: every reviewed (function, Type.field) direct assignment is still made - state that a path no longer updates, or updates only conditionally (get_or_insert for an overwrite); generalises NN.R (rules/writes.py)', lambda F: writes.for_property(F, 'C02', '02.W')))
+
+def r02j9(F):
+	"""a forward / fail-back held while a monitor update is in flight survives a second pause: overwritten, the upstream HTLC is never failed back or the forward never made (09.j's accumulate clause, re-labelled)"""
+	import C09
+	out = []
+	for r in C09.r09j(F):
+		if 'accumulate:' in r.key and any(f in r.key for f in ('monitor_pending_failures', 'monitor_pending_forwards')):
+			r.rule = '02.J'
+			out.append(r)
+	if not out:
+		out.append(Result('02.J', False, 'anchor:accumulate', 'monitor_updating_paused: accumulate clauses of 09.j not found'))
+	return out
+RULES.append(('02.J', 'a forward / fail-back held while a monitor update is in flight survives a second pause (09.j under C02)', r02j9))
